@@ -208,6 +208,7 @@ EXAMPLE_MESSAGES = {
     "ShutterAdapter": [b"P?", b"T?", b"T=0.5", b"T=1", b"T=", b"P", b"T?x", b"\xfe", b" P? "],
     "AmplifierAdapter": [b"A?", b"A=3", b"A=2.5", b"A=", b"A", b"a?", b"\x80", b"A?\r\n"],
     "IsolatedBoxTCPAdapter": [b"v?", b"v=5", b"v=1.5", b"v=", b"v", b"V?", b"\xc3", b"v?\n"],
+    "SystemSimulationAdapter": [b"ids", b"id=snk", b"id=nope", b"wiring", b"interrupt=nope", b"id=", b"ids ", b"wirin", b"\xe2\x82", b"IDS"],
 }
 
 
@@ -221,7 +222,17 @@ def example_adapters():
     import examples.devices.isolated_device as iso
     import examples.devices.remote_controlled as rc
     import examples.devices.shutter as sh
+    def system_adapter():
+        import examples.adapters.system_simulation_adapter as ssa
+        from tickit.core.components.device_component import DeviceComponent
+        from tickit.core.typedefs import ComponentID
+        from tickit.devices.sink import SinkDevice
+        ad = ssa.SystemSimulationAdapter()
+        ad.setup_adapter({ComponentID("snk"): DeviceComponent(name=ComponentID("snk"), device=SinkDevice())}, {"snk": {}})
+        return ad
+
     return {
+        "SystemSimulationAdapter": system_adapter,
         "RemoteControlledAdapter": lambda: rc.RemoteControlledAdapter(rc.RemoteControlledDevice(), ByteFormat(b"%b\r\n")),
         "ShutterAdapter": lambda: sh.ShutterAdapter(sh.ShutterDevice(default_position=0.2, initial_position=0.2)),
         "AmplifierAdapter": lambda: amp.AmplifierAdapter(amp.AmplifierDevice()),
